@@ -59,7 +59,7 @@ fn proto_reencodings(bytes: &[u8], t: &schema::Biscuit) -> Vec<(&'static str, Ve
 pub fn run(tier: Tier) {
     let ctx = Ctx::new("C15", tier);
     // ---------------- stability along all histories
-    let depth = tier.pick(2, 3);
+    let depth = tier.pick(2, 4);
     let contents: &'static [&'static str] = &["b0", "b5"];
     let tp: &'static [&'static str] = &["t1"];
     let next = std_next_ops(contents, tp);
